@@ -162,6 +162,8 @@ impl World for AgentWorld {
         out.count("fault.peer_frozen", h.freezes.len() as u64);
         out.count("fault.peer_close_read", h.sent.iter().filter(|s| matches!(s.op, scenario::Op::CloseRead)).count() as u64);
         out.count("fault.peer_close_write", h.sent.iter().filter(|s| matches!(s.op, scenario::Op::CloseWrite)).count() as u64);
+        out.count("fault.peer_torn_frame", h.sent.iter().filter(|s| matches!(s.op, scenario::Op::TornCmd { .. })).count() as u64);
+        out.count("fault.bad_command_body", h.sent.iter().filter(|s| s.ok && matches!(s.op, scenario::Op::BadCmd { .. })).count() as u64);
         out.count("fault.store_fault_fired", rec.store_fault_fired as u64);
         out.count("fault.crash", rec.crash_step.is_some() as u64);
         out.count("fault.lane_failed", rec.truth.iter().flatten().filter(|(_, e)| matches!(e, model::TruthEv::LaneFailed { .. })).count() as u64);
@@ -196,7 +198,7 @@ impl World for AgentWorld {
             || !h.freezes.is_empty()
             || rec.crash_step.is_some()
             || rec.store_fault_fired
-            || h.sent.iter().any(|s| !s.ok || matches!(s.op, scenario::Op::CloseRead | scenario::Op::CloseWrite))
+            || h.sent.iter().any(|s| !s.ok || matches!(s.op, scenario::Op::CloseRead | scenario::Op::CloseWrite | scenario::Op::TornCmd { .. } | scenario::Op::BadCmd { .. }))
             || rec.decisions > 50;
         let _ = StoreFaultCfg::None;
         out
